@@ -4,6 +4,7 @@ import json, sys
 pid = sys.argv[1]
 n = int(sys.argv[2]) if len(sys.argv) > 2 else 3
 wt = sys.argv[3] if len(sys.argv) > 3 else "/tmp/wt/%s" % pid
+start = int(sys.argv[4]) if len(sys.argv) > 4 else 1
 rec = None
 for l in open("/verif/properties.jsonl"):
     d = json.loads(l)
@@ -28,7 +29,7 @@ value, a particular option combination, a multi-step sequence of calls, or two c
 fine alone - NOT something ordinary use would expose at once. Spread the {n} mutants over different functions /
 different clauses of the property. Do not touch the tests.
 
-For mutant k (k = 1..{n}) leave in {wt}/mutants/ :
+For mutant k (k = {start}..{start+n-1}) leave in {wt}/mutants/ :
   m<k>.diff      - output of `git diff` for the change (must apply with `git apply` to a clean checkout)
   m<k>_demo.py   - a small standalone program, run as `cd {wt} && /venv/bin/python mutants/m<k>_demo.py`, that exits
                    non-zero (failed assertion) WITH the change and exits 0 WITHOUT it; it must check the property
